@@ -61,6 +61,15 @@ def run(ctx):
             G = q.Inliner(fx, a).gformula(a, effective=False)
             ok = B.entails(G, B.A("self.clear"))
             ctx.ob("V1", EV, cls, "clear only on self.clear", ok, "" if ok else f"pending cleared under {B.show(G)}", a.line)
+    # a pulse source is level sensitive: pending' = trigger | (pending & ~clear) -- every cycle with the trigger high sets it
+    fxp = fx_of(ctx, EV, "EventSourcePulse")
+    sp = [a for a in fxp.find(domain="sync", target="self.pending") if a.v == "1"]
+    F1 = B.F
+    for a in sp:
+        F1 = B.Or(F1, q.Inliner(fxp, a).gformula(a, effective=False))
+    ok = bool(sp) and B.equivalent(F1, B.A("self.trigger"))
+    ctx.ob("V2", EV, "EventSourcePulse", "pending set in every cycle the trigger is high", ok,
+           "" if ok else f"pending is set under {B.show(F1)}: a trigger that is still (or again) high in the cycle after the clear is lost", sp[0].line if sp else 0)
     fx = fx_of(ctx, EV, "EventSourceProcess")
     td = fx.find(domain="sync", target="trigger_d")
     ok = len(td) == 1 and not td[0].guards and td[0].v == "self.trigger" and not td[0].pyguards
